@@ -230,10 +230,12 @@ theorem C04_once_pooled (s : Server) (hpool : s.pool = .accepting) (hcustom : s.
     begun), there is a finite sequence of worker actions — no time-out, no `task.end`, no client action — after which the
     registered function has been invoked exactly once by this notification, or some worker is inside a task body (only then
     does progress depend on the environment: that body has to end; by `C10_running_le_max`/`C10_no_starvation` at most
-    `max_threads` bodies run and a free worker exists below that).  Single controlling thread, `max_threads ≥ 1`, as in C09. -/
+    `max_threads` bodies run and a free worker exists below that).  Single controlling thread, `max_threads ≥ 1` and no
+    failing `Thread.start()` (`cfg.startMayFail = false`, the environment assumption of the C09/C10 growth theorems), as in C09. -/
 theorem C04_pooled_eventually_runs (s : Server) (hcustom : s.custom = Option.none) (m : String) (p : PyVal) (ver : Nat)
     (c : Callable) (hf : s.reg.funcs.lookup m = some c) (hb : binds c.sig p = true)
     (cfg : JRV.Pool.Config) (n : Nat) (hctl : cfg.singleCtl = true) (hmax : 1 ≤ cfg.max)
+    (hnf : cfg.startMayFail = false)
     (ps ps' : JRV.Pool.State) (hr : JRV.Pool.Reach (JRV.Pool.init cfg n) ps)
     (i : Nat) (hstep : JRV.Pool.step? ps ⟨.client i, .callEnqueue, false⟩ = Option.some ps')
     (ps'' : JRV.Pool.State) (hreach : JRV.Pool.Reach ps' ps'') (hrun : ps''.stop = false)
@@ -245,7 +247,7 @@ theorem C04_pooled_eventually_runs (s : Server) (hcustom : s.custom = Option.non
       (pooledEffects s (.enqueue false (.str m) p ver) ps3 ps.tasks.length = [.call .func (.str m) p] ∨
         ∃ w ∈ ps3.workers, w.pc = .body) := by
   have hr'' : JRV.Pool.Reach (JRV.Pool.init cfg n) ps'' := JRV.Pool.Reach.trans (JRV.Pool.Reach.step _ hr hstep) hreach
-  obtain ⟨as, ps3, h1, h2, h3⟩ := C09_eventually_begins cfg n ps'' hctl hmax hr'' hrun hidle _ tk ht hwait
+  obtain ⟨as, ps3, h1, h2, h3⟩ := C09_eventually_begins cfg n ps'' hctl hmax hnf hr'' hrun (clientsOutside_of_idle hidle) _ tk ht hwait
   refine ⟨as, ps3, h1, h2, ?_⟩
   rcases h3 with ⟨tk', htk', hph⟩ | hbody
   · left
@@ -288,12 +290,8 @@ theorem C04_gen_notifIds :
 
 theorem C04_gen_exceptPathSilencesNotification : Generated.exceptPathSilencesNotification = some true := by decide
 
-/-- Tie of `C04_once_pooled` to the source of the notification pool: the facts of `ThreadPool` that the pool model's hand-off
-    of tasks (growth, retirement, accounting, lock discipline) encodes — the same facts C09 is tied by. -/
-theorem C04_gen_poolRetireRule : Generated.poolRetireRule = some JRV.Pool.retireRuleSpec := by decide
-theorem C04_gen_poolGrowthRule : Generated.poolGrowthRule = some JRV.Pool.growthRuleSpec := by decide
-theorem C04_gen_poolPendingStores : Generated.poolPendingStores = some JRV.Pool.pendingStoresSpec := by decide
-theorem C04_gen_poolUnlockedAccesses : Generated.poolUnlockedAccesses = some JRV.Pool.unlockedAccessesSpec := by decide
+/- The tie of `C04_once_pooled` to the source of the notification pool (`C04_gen_poolRetireRule`, `C04_gen_poolGrowthRule`,
+   `C04_gen_poolPendingStores`, `C04_gen_poolUnlockedAccesses`) is in JRV/Properties/C04Gen.lean. -/
 
 /- Non-vacuity: notifications whose method raises / does not exist / gets bad arguments, at a batch
    position, inline and pooled. -/
